@@ -14,6 +14,14 @@ PROPS = {
             'exception freedom of main-process functions on all '
             's-expression shapes; containment of mutator failures; exit '
             'status'),
+    'C12': ('contracts.c12', 'exploration',
+            'Node equality/hash on all shape pairs with symbolic contents; '
+            'copy/pickle/traversal native bounded; binary_search proved'),
+    'C11': ('contracts.c11', 'exploration',
+            'substitute against a recursive reference (bounded native); '
+            'introduce_variables/apply_simp symbolic contracts'),
+    'C13': ('contracts.c13', 'exploration',
+            'reduplicate on DAGs (bounded native) + call-site obligations'),
 }
 
 
